@@ -201,7 +201,8 @@ static std::string make_file(Src& s, int fmt, std::string& what) {
     go.max_list = 4;
     go.max_str = s.chance(1, 8) ? 300 : 24;
     std::vector<Obj> data;
-    size_t n = s.size(8);
+    // mostly small files (cuts can be enumerated), sometimes 10-40 kB (pieces below and above the 4096/10240-byte sizes the I/O layer uses)
+    size_t n = s.chance(1, 6) ? 100 + s.draw(300) : s.size(8);
     for (size_t i = 0; i < n; ++i) {
         Obj x = gen::object(s, static_cast<int>(s.draw(3)), go);
         if (x.version == 0 || s.chance(1, 4)) {
@@ -339,8 +340,16 @@ static void prop(Src& s) {
             try_plan({a, 1 + s.draw(s.boolean() ? 3 : N)});
         }
     }
+    // a small piece followed by a large one and the reverse (pieces around the sizes the I/O layer uses)
+    if (N > 9000) {
+        for (size_t k = 0; k < 6; ++k) {
+            size_t a = 1 + s.draw(4095);
+            try_plan({a, 4096 + s.draw(N - a - 4096)});
+            try_plan({4096 + s.draw(4096), a});
+        }
+    }
     // fixed piece sizes
-    for (size_t sz : {1, 2, 3, 5, 7, 11, 64, 4095}) {
+    for (size_t sz : {1, 2, 3, 5, 7, 11, 64, 4095, 4096, 10240}) {
         if (N / sz > 3000) continue;
         try_plan(std::vector<size_t>(N / sz + 1, sz));
     }
